@@ -622,20 +622,29 @@ Definition base_h (d : bool) (v : vm) (i : inv) : nat :=
 Definition base_f (v : vm) (i : inv) : nat := match iapi i with ACall => FP v | _ => 0 end.
 
 Lemma run_inv_eq d e g v i :
-  running v = false ->
+  running v = false -> (iapi i = ARun -> ipok v = true) ->
   run_inv (cfgd d) e g v i =
   let '(r, s1) := body_run d e i (start_st e g (base_h d v i) (base_f v i) i) in
   (outcome_of r, sE s1, sG s1,
-   mkVm (Some (ncells e)) (match r with RDiverge => true | _ => false end) (S (startCount v)) (sH s1) (sFP s1)).
+   mkVm (Some (ncells e)) (match r with RDiverge => true | _ => false end) (S (startCount v)) (sH s1) (sFP s1)
+        (match iapi i with ARunCode => false | _ => ipok v end)).
 Proof.
-  intros R. unfold run_inv, start. rewrite R.
+  intros R K. unfold run_inv, start. rewrite R.
   unfold body_run, start_st, base_h, base_f, env1.
-  destruct d; destruct (iapi i) eqn:EA; cbn -[eval call_fn Nat.ltb];
+  destruct d; destruct (iapi i) eqn:EA; try rewrite (K eq_refl); cbn -[eval call_fn Nat.ltb];
+    try (destruct (ipok v); cbn -[eval call_fn Nat.ltb]);
     try (destruct (1 <? S (startCount v)); cbn -[eval call_fn]);
     try (match goal with |- context [eval ?a ?b ?c ?d ?s] => destruct (eval a b c d s) as [r s1] end;
          destruct r; reflexivity);
     try (match goal with |- context [call_fn ?a ?b ?c ?s] => destruct (call_fn a b c s) as [r s1] end;
          destruct r; reflexivity).
+Qed.
+
+Lemma run_inv_wild d e g v i :
+  running v = false -> iapi i = ARun -> ipok v = false ->
+  run_inv (cfgd d) e g v i = (OWild, env1 e (ictx i), g, mkVm (Some (ncells e)) false (S (startCount v)) 0 0 false).
+Proof.
+  intros R A K. unfold run_inv, start. rewrite R. destruct d; cbn; rewrite A, K; reflexivity.
 Qed.
 
 Lemma body_run_good d e i s0 :
@@ -670,7 +679,7 @@ Proof.
 Qed.
 
 Definition fresh_of (d : bool) (e : env) (g : Z) (i : inv) : outcome :=
-  let '(o0, _, _, _) := run_inv (cfgd d) e g (mkVm None false 0 0 0) i in o0.
+  let '(o0, _, _, _) := run_inv (cfgd d) e g (mkVm None false 0 0 0 true) i in o0.
 Lemma fresh_outcome_of d e g v i o : fresh_outcome (cfgd d) (mkObs e g v i o) = fresh_of d e g i.
 Proof. reflexivity. Qed.
 
@@ -678,79 +687,139 @@ Proof. reflexivity. Qed.
 Lemma run_inv_cfgd d e g v i :
   vm_ok v -> env_ok e ->
   let '(o, e', g', v') := run_inv (cfgd d) e g v i in
-  (o = fresh_of d e g i \/ (d = false /\ o = OErr EStack /\ iapi i <> ARunCode)) /\
-  o <> OStale /\ o <> OBusy /\ env_ok e' /\ (o <> ODiverge -> vm_ok v').
+  (o = fresh_of d e g i \/ (d = false /\ o = OErr EStack /\ iapi i <> ARunCode) \/
+   (o = OWild /\ iapi i = ARun /\ ipok v = false)) /\
+  o <> OStale /\ o <> OBusy /\ env_ok e' /\ (o <> ODiverge -> vm_ok v') /\
+  (ipok v' = false -> ipok v = false \/ iapi i = ARunCode).
 Proof.
   intros (V1 & V2 & V3 & V4) EO.
-  unfold fresh_of. change (mkVm None false 0 0 0) with (fst (new_vm (cfgd d) e)).
-  rewrite run_inv_eq by auto. rewrite run_inv_eq by reflexivity.
-  set (s_sh := start_st e g (base_h d v i) (base_f v i) i).
-  set (s_fr := start_st e g (base_h d (fst (new_vm (cfgd d) e)) i) (base_f (fst (new_vm (cfgd d) e)) i) i).
-  assert (Hsh : sH s_sh <= MaxStack).
-  { unfold s_sh, base_h. cbn -[Nat.ltb]. destruct d; [apply Nat.le_0_l|].
-    destruct (iapi i); auto. destruct (1 <? S (startCount v)); auto. apply Nat.le_0_l. }
-  assert (R : rel (sH s_sh) s_sh s_fr).
-  { unfold s_sh, s_fr, start_st, base_f. cbn. repeat split; auto.
-    - destruct (iapi i); auto.
-    - unfold base_h. destruct d; cbn -[Nat.ltb]; [reflexivity|]. destruct (iapi i); cbn -[Nat.ltb]; try reflexivity. }
-  pose proof (body_run_shift d e i _ _ _ R Hsh) as SH. unfold shifted in SH.
-  pose proof (body_run_good d e i s_sh Hsh) as (G1 & G2).
-  pose proof (body_run_nsil d e i s_sh (env1_run_ok e (ictx i) EO)) as (N1 & N2).
-  assert (Hzero : d = true \/ iapi i = ARunCode -> s_sh = s_fr).
-  { intros X. unfold s_sh, s_fr, base_h, base_f. destruct d.
-    - cbn. rewrite V3. destruct (iapi i); reflexivity.
-    - destruct X as [X|X]; [discriminate|]. rewrite X. cbn -[Nat.ltb].
-      destruct (startCount v) eqn:SC; cbn; auto. rewrite V4; auto. }
-  destruct (body_run d e i s_sh) as [r s1] eqn:E1. destruct (body_run d e i s_fr) as [r0 s1'] eqn:E2.
-  cbn [fst snd] in *.
-  split; [|split; [|split; [|split]]].
-  - destruct d; [left; rewrite Hzero in E1 by auto; congruence|].
-    destruct (iapi i) eqn:EA.
-    + left. rewrite Hzero in E1 by auto. congruence.
-    + destruct SH as [SH|[SH _]]; [right; subst; repeat split; [discriminate]|left; congruence].
-    + destruct SH as [SH|[SH _]]; [right; subst; repeat split; [discriminate]|left; congruence].
-  - destruct r; cbn; congruence.
-  - destruct r; cbn; congruence.
-  - apply N2.
-  - intros D. assert (D' : r <> RDiverge) by (destruct r; cbn in D; congruence).
-    repeat split; cbn.
-    + destruct r; congruence.
-    + auto.
-    + rewrite G2 by auto. unfold s_sh, base_f. cbn. destruct (iapi i); auto.
-    + discriminate.
+  destruct (iapi i) eqn:EAPI0; try (destruct (ipok v) eqn:EOK);
+  try (rewrite (run_inv_wild d e g v i V1 EAPI0 EOK);
+       split; [right; right; auto|]; split; [discriminate|]; split; [discriminate|];
+       split; [apply (env1_run_ok e (ictx i) EO)|]; split; [|auto];
+       intros _; unfold vm_ok; cbn; repeat split; auto; try apply Nat.le_0_l; discriminate).
+  all: assert (KK : iapi i = ARun -> ipok v = true) by (intros X; congruence).
+  all: unfold fresh_of; change (mkVm None false 0 0 0 true) with (fst (new_vm (cfgd d) e));
+    rewrite (run_inv_eq d e g v i V1 KK); rewrite run_inv_eq by (auto; reflexivity).
+  all: set (s_sh := start_st e g (base_h d v i) (base_f v i) i);
+    set (s_fr := start_st e g (base_h d (fst (new_vm (cfgd d) e)) i) (base_f (fst (new_vm (cfgd d) e)) i) i).
+  all: assert (Hsh : sH s_sh <= MaxStack) by
+    (unfold s_sh, base_h; cbn -[Nat.ltb]; destruct d; [apply Nat.le_0_l|];
+     rewrite EAPI0; auto; destruct (1 <? S (startCount v)); auto; apply Nat.le_0_l).
+  all: assert (R : rel (sH s_sh) s_sh s_fr) by
+    (unfold s_sh, s_fr, start_st, base_f; cbn; repeat split; auto;
+     [rewrite EAPI0; auto
+     |unfold base_h; destruct d; cbn -[Nat.ltb]; [reflexivity|]; rewrite EAPI0; cbn -[Nat.ltb]; try reflexivity]).
+  all: pose proof (body_run_shift d e i _ _ _ R Hsh) as SH; unfold shifted in SH;
+    pose proof (body_run_good d e i s_sh Hsh) as (G1 & G2);
+    pose proof (body_run_nsil d e i s_sh (env1_run_ok e (ictx i) EO)) as (N1 & N2).
+  all: assert (Hzero : d = true \/ iapi i = ARunCode -> s_sh = s_fr) by
+    (intros X; unfold s_sh, s_fr, base_h, base_f; destruct d;
+     [cbn; rewrite V3; rewrite EAPI0; reflexivity
+     |destruct X as [X|X]; [discriminate|]; rewrite X; cbn -[Nat.ltb];
+      destruct (startCount v) eqn:SC; cbn; auto; rewrite V4; auto]).
+  all: destruct (body_run d e i s_sh) as [r s1] eqn:E1; destruct (body_run d e i s_fr) as [r0 s1'] eqn:E2;
+    cbn [fst snd] in *.
+  all: (split; [|split; [|split; [|split; [|split]]]]);
+    [ destruct d; [left; rewrite Hzero in E1 by auto; congruence|];
+      first [ left; rewrite Hzero in E1 by (right; congruence); congruence
+            | destruct SH as [SH|[SH _]]; [right; left; subst; repeat split; [congruence]|left; congruence] ]
+    | destruct r; cbn; congruence
+    | destruct r; cbn; congruence
+    | apply N2
+    | intros D; assert (D' : r <> RDiverge) by (destruct r; cbn in D; congruence);
+      unfold vm_ok; cbn; repeat split;
+      [ destruct r; congruence | auto | rewrite G2 by auto; unfold s_sh, base_f; cbn; rewrite EAPI0; auto | discriminate ]
+    | cbn; rewrite EAPI0; intros X; try (left; congruence); try (right; reflexivity) ].
 Qed.
 
 (* ------------------------------------------------------------------ histories *)
+(* no RunCode so far, seen from the instruction pointer *)
+Definition inv_is_runcode (it : item) : bool :=
+  match it with IInv i => match iapi i with ARunCode => true | _ => false end | IEnv _ => false end.
+Definition inv_is_run (it : item) : bool :=
+  match it with IInv i => match iapi i with ARun => true | _ => false end | IEnv _ => false end.
+
+Definition verdict (d : bool) (b : obs) : Prop :=
+  o_out b = fresh_outcome (cfgd d) b \/
+  (d = false /\ o_out b = OErr EStack /\ iapi (o_inv b) <> ARunCode) \/
+  (o_out b = OWild /\ iapi (o_inv b) = ARun /\ ipok (o_vm b) = false).
+
 Lemma exec_cfgd d h : forall e g v b,
   vm_ok v -> env_ok e -> In b (exec (cfgd d) e g v h) ->
-  (o_out b = fresh_outcome (cfgd d) b \/ (d = false /\ o_out b = OErr EStack /\ iapi (o_inv b) <> ARunCode)) /\
-  o_out b <> OStale /\ o_out b <> OBusy /\ vm_ok (o_vm b) /\ env_ok (o_env b).
+  verdict d b /\ o_out b <> OStale /\ o_out b <> OBusy /\ vm_ok (o_vm b) /\ env_ok (o_env b) /\
+  (ipok v = true -> existsb inv_is_runcode h = false -> ipok (o_vm b) = true).
 Proof.
   induction h as [|it h IH]; intros e g v b V E I; [destruct I|].
   destruct it as [x|i]; cbn [exec] in I.
-  - eapply (IH (do_ev x e) g v b V); [apply do_ev_ok; auto|exact I].
+  - destruct (IH (do_ev x e) g v b V (do_ev_ok x e E) I) as (A1 & A2 & A3 & A4 & A5 & A6).
+    refine (conj A1 (conj A2 (conj A3 (conj A4 (conj A5 _))))). intros K N. apply A6; auto.
   - pose proof (run_inv_cfgd d e g v i V E) as P.
     destruct (run_inv (cfgd d) e g v i) as [[[o e'] g'] v'] eqn:ER.
-    destruct P as (P1 & P2 & P3 & P4 & P5).
+    destruct P as (P1 & P2 & P3 & P4 & P5 & P6).
     destruct I as [I|I].
-    + subst b. rewrite fresh_outcome_of. cbn [o_out o_inv o_vm o_env]. auto.
-    + destruct o; try (eapply (IH e' g' v' b); [apply P5; discriminate|exact P4|exact I]). destruct I.
+    + subst b. unfold verdict. rewrite fresh_outcome_of. cbn [o_out o_inv o_vm o_env].
+      refine (conj P1 (conj P2 (conj P3 (conj V (conj E _))))). auto.
+    + assert (X : o <> ODiverge) by (intros ->; destruct I).
+      assert (I' : In b (exec (cfgd d) e' g' v' h)) by (destruct o; auto; congruence).
+      destruct (IH e' g' v' b (P5 X) P4 I') as (A1 & A2 & A3 & A4 & A5 & A6).
+      refine (conj A1 (conj A2 (conj A3 (conj A4 (conj A5 _))))). intros K N. cbn [existsb inv_is_runcode] in N. apply orb_false_iff in N. destruct N as [N1 N2].
+      apply A6; auto. destruct (ipok v') eqn:EK; auto. destruct (P6 eq_refl) as [Q|Q]; [congruence|].
+      rewrite Q in N1. discriminate.
 Qed.
 
 Lemma exec0_cfgd d g h b :
   In b (exec0 (cfgd d) g h) ->
-  (o_out b = fresh_outcome (cfgd d) b \/ (d = false /\ o_out b = OErr EStack /\ iapi (o_inv b) <> ARunCode)) /\
-  o_out b <> OStale /\ o_out b <> OBusy /\ vm_ok (o_vm b) /\ env_ok (o_env b).
+  verdict d b /\ o_out b <> OStale /\ o_out b <> OBusy /\ vm_ok (o_vm b) /\ env_ok (o_env b) /\
+  (existsb inv_is_runcode h = false -> ipok (o_vm b) = true).
 Proof.
   intros I. unfold exec0 in I. cbn [new_vm per_run_flag cfgd] in I.
-  eapply exec_cfgd in I; [apply I| apply (vm_ok_new d env0) | apply env_ok_0].
+  eapply exec_cfgd in I; [|apply (vm_ok_new d env0) | apply env_ok_0].
+  destruct I as (A1 & A2 & A3 & A4 & A5 & A6). refine (conj A1 (conj A2 (conj A3 (conj A4 (conj A5 _))))). auto.
 Qed.
 
-(* the code as it is: every invocation of every history gives what a new VM gives *)
+(* the code as it is: every invocation of every history gives what a new VM gives, except a Run that has to
+   resume the main code at an instruction pointer a RunCode left behind *)
 Theorem independent_current g h b :
-  In b (exec0 cfg_current g h) -> o_out b = fresh_outcome cfg_current b.
+  In b (exec0 cfg_current g h) ->
+  o_out b = fresh_outcome cfg_current b \/
+  (o_out b = OWild /\ iapi (o_inv b) = ARun /\ ipok (o_vm b) = false).
 Proof.
-  intros I. destruct (exec0_cfgd true g h b I) as ([X|[X _]] & _); [exact X|discriminate].
+  intros I. destruct (exec0_cfgd true g h b I) as ([X|[[X _]|X]] & _); auto. discriminate.
+Qed.
+
+Theorem guarded_current g h b :
+  In b (exec0 cfg_current g h) -> (iapi (o_inv b) <> ARun \/ ipok (o_vm b) = true) ->
+  o_out b = fresh_outcome cfg_current b.
+Proof.
+  intros I G. destruct (independent_current g h b I) as [X|(X1 & X2 & X3)]; auto.
+  destruct G; congruence.
+Qed.
+
+(* embedding protocol: RunCode and Call only *)
+Theorem independent_without_run g h b :
+  existsb inv_is_run h = false -> In b (exec0 cfg_current g h) -> o_out b = fresh_outcome cfg_current b.
+Proof.
+  intros N I. apply (guarded_current g h b I). left. intros A.
+  assert (X : forall cfg e g v h b, In b (exec cfg e g v h) -> In (IInv (o_inv b)) h).
+  { clear. intros cfg e g v h. revert e g v. induction h as [|it h IH]; intros e g v b I; [destruct I|].
+    destruct it as [x|i]; cbn [exec] in I.
+    - right. eapply IH; eauto.
+    - destruct (run_inv cfg e g v i) as [[[o e'] g'] v']. destruct I as [I|I].
+      + subst b. left. reflexivity.
+      + right. destruct o; try (eapply IH; eauto; fail); destruct I. }
+  unfold exec0 in I. cbn [new_vm per_run_flag cfg_current cfgd] in I. apply X in I.
+  assert (Y : existsb inv_is_run h = true).
+  { apply existsb_exists. exists (IInv (o_inv b)). split; auto. cbn. rewrite A. reflexivity. }
+  congruence.
+Qed.
+
+(* REPL protocol: Run and Call only *)
+Theorem independent_without_runcode g h b :
+  existsb inv_is_runcode h = false -> In b (exec0 cfg_current g h) -> o_out b = fresh_outcome cfg_current b.
+Proof.
+  intros N I. apply (guarded_current g h b I). right.
+  destruct (exec0_cfgd true g h b I) as (_ & _ & _ & _ & _ & K). auto.
 Qed.
 
 Theorem no_silent_halt g h b : In b (exec0 cfg_current g h) -> o_out b <> OStale /\ o_out b <> OBusy.
@@ -764,158 +833,8 @@ Proof. intros I. destruct (exec0_cfgd true g h b I) as (_ & _ & _ & A & _). auto
 (* before c13bc4b (start() kept the stack): independent, or the stack is exhausted (Call / Run only) *)
 Theorem independent_nodrop g h b :
   In b (exec0 cfg_nodrop g h) ->
-  o_out b = fresh_outcome cfg_nodrop b \/ (o_out b = OErr EStack /\ iapi (o_inv b) <> ARunCode).
+  o_out b = fresh_outcome cfg_nodrop b \/ (o_out b = OErr EStack /\ iapi (o_inv b) <> ARunCode) \/
+  (o_out b = OWild /\ iapi (o_inv b) = ARun /\ ipok (o_vm b) = false).
 Proof.
-  intros I. destruct (exec0_cfgd false g h b I) as ([X|(_ & X)] & _); auto.
+  intros I. destruct (exec0_cfgd false g h b I) as ([X|[(_ & X)|X]] & _); auto.
 Qed.
-
-(* ------------------------------------------------------------------ a static guard: enough room *)
-Section HMax.
-  Variable cfg : config.
-  Hypothesis Hguard : push_guard cfg = true.
-  Variable hc : option nat.
-  Variable cx : nat.
-  Notation ev := (eval cfg hc cx).
-
-  (* no stack panic, and (unless it never returns) the height ends at most m above where it started *)
-  Definition fits (m : nat) (s : st) (p : res * st) : Prop :=
-    fst p <> RP EStack /\ fst p <> RE EStack /\ (fst p <> RDiverge -> sH (snd p) <= sH s + m).
-
-  Lemma halt_res_not_stack s : halt_res cx s <> RP EStack /\ halt_res cx s <> RE EStack.
-  Proof. unfold halt_res. destruct (is_cancelled _ _); split; discriminate. Qed.
-
-  Lemma fits_halt m s0 s : sH s <= sH s0 + m -> fits m s0 (halt_res cx s, s).
-  Proof. intros L. destruct (halt_res_not_stack s). repeat split; cbn; auto. Qed.
-
-  Lemma fits_push m z s0 s :
-    sH s < MaxStack -> sH s + 1 <= sH s0 + m -> fits m s0 (push_val cfg z s).
-  Proof.
-    intros A B. destruct (push_val_cases cfg Hguard z s) as [[L E]|[L E]]; [|lia].
-    rewrite E. repeat split; cbn; try discriminate. lia.
-  Qed.
-
-  Lemma fits_other m s0 r s :
-    r <> RP EStack -> r <> RE EStack -> (forall z, r <> RV z) -> sH s <= sH s0 + m -> fits m s0 (r, s).
-  Proof. intros. repeat split; cbn; auto. Qed.
-
-  Lemma call_fn_fits m (body : st -> res * st) s :
-    sH s + m <= MaxStack -> 1 <= m ->
-    (forall t, sH t <= MaxStack -> good t (fst (body t)) (snd (body t))) ->
-    (forall t, sH t + m <= MaxStack -> fits m t (body t)) ->
-    fits 1 s (call_fn hc cx body s).
-  Proof.
-    intros A M G IH.
-    unfold call_fn.
-    destruct (MaxFrames <=? S (sFP s)) eqn:EF.
-    - pose proof (resume_ok (sH s) (sFP s) (setHF s (sH s) (S (sFP s))) ltac:(cbn; lia) (le_n _)) as R.
-      destruct (resume (sH s) (sFP s) (setHF s (sH s) (S (sFP s)))) as [p t]. cbn in R.
-      destruct R as (R1 & R2 & R3 & R4 & R5). subst p. repeat split; cbn; try discriminate. intros _. lia.
-    - specialize (IH (setHF s (sH s) (S (sFP s))) A).
-      specialize (G (setHF s (sH s) (S (sFP s))) ltac:(cbn; lia)).
-      destruct (body (setHF s (sH s) (S (sFP s)))) as [r s1]. destruct IH as (I1 & I2 & I3). cbn in I1, I2, I3.
-      destruct G as (G1 & G2 & G3 & G4). cbn in G1, G3.
-      pose proof (resume_ok (sH s) (sFP s) s1 G1 G3) as R.
-      destruct (resume (sH s) (sFP s) s1) as [p s2]. cbn in R.
-      destruct R as (R1 & R2 & R3 & R4 & R5). subst p.
-      destruct r.
-      + destruct (polled hc s1); cbn.
-        * destruct (halt_res_not_stack s1). repeat split; cbn; auto. intros _; lia.
-        * repeat split; cbn; try discriminate. intros _; lia.
-      + repeat split; cbn; try discriminate; try congruence. intros _; lia.
-      + repeat split; cbn; try discriminate; try congruence. intros _; lia.
-      + repeat split; cbn; try discriminate; try congruence. intros _; lia.
-      + repeat split; cbn; try discriminate; try congruence.
-  Qed.
-
-  Lemma spin_not_stack gs : forall s, fst (spin hc cx gs s) <> RE EStack.
-  Proof.
-    induction gs as [|xs gs IH]; intros t; cbn.
-    - destruct (polled hc t); cbn; [apply halt_res_not_stack|discriminate].
-    - destruct (polled hc t); cbn; [apply halt_res_not_stack|apply IH].
-  Qed.
-
-  Lemma spin_fits gs s : fits 0 s (spin hc cx gs s).
-  Proof.
-    pose proof (spin_not_stack gs s) as N.
-    destruct (spin hc cx gs s) as [r s'] eqn:E. apply spin_shape in E.
-    destruct E as (E1 & E2 & E3 & E4). repeat split; cbn; auto. intros _. lia.
-  Qed.
-
-  Ltac other I3 :=
-    apply fits_other;
-    [ auto; try discriminate | auto; try discriminate | intros; discriminate
-    | specialize (I3 ltac:(discriminate)); lia ].
-
-  Lemma hmax_pos e : 1 <= hmax e.
-  Proof. induction e; cbn [hmax]; lia. Qed.
-
-  Lemma eval_fits e : forall s, sH s + hmax e <= MaxStack -> fits (hmax e) s (ev e s).
-  Proof.
-    induction e; intros s A; cbn [eval hmax] in *; unfold poll_then;
-      try (pose proof (hmax_pos e1) as P1; pose proof (hmax_pos e2) as P2); try pose proof (hmax_pos e) as P0.
-    - destruct (polled hc s); [apply fits_halt; lia|apply fits_push; lia].
-    - destruct (polled hc s); [apply fits_halt; lia|apply fits_push; lia].
-    - destruct (polled hc s); [apply fits_halt; lia|apply fits_push; cbn; lia].
-    - (* Bin *)
-      pose proof (eval_good cfg Hguard hc cx e1 s ltac:(lia)) as G1.
-      specialize (IHe1 s ltac:(lia)). destruct (ev e1 s) as [r1 s1]. cbn [fst snd] in *.
-      destruct IHe1 as (I1 & I2 & I3); cbn [fst snd] in I1, I2, I3. destruct G1 as (G11 & G12 & G13 & G14).
-      destruct r1; try (other I3; fail).
-      2:{ repeat split; cbn; auto; try discriminate. intros X; congruence. }
-      specialize (G14 _ eq_refl). specialize (I3 ltac:(discriminate)).
-      pose proof (eval_good cfg Hguard hc cx e2 s1 ltac:(lia)) as G2.
-      specialize (IHe2 s1 ltac:(lia)). destruct (ev e2 s1) as [r2 s2]. cbn [fst snd] in *.
-      destruct IHe2 as (J1 & J2 & J3); cbn [fst snd] in J1, J2, J3. destruct G2 as (G21 & G22 & G23 & G24).
-      destruct r2; try (other J3; fail).
-      2:{ repeat split; cbn; auto; try discriminate. intros X; congruence. }
-      specialize (G24 _ eq_refl).
-      destruct (polled hc s2); [apply fits_halt; lia|].
-      rewrite (pop1_some s2) by lia. rewrite (pop1_some (setH s2 _)) by (cbn; lia).
-      apply fits_push; rewrite ?sH_setH; try lia; cbn; lia.
-    - (* Seq *)
-      pose proof (eval_good cfg Hguard hc cx e1 s ltac:(lia)) as G1.
-      specialize (IHe1 s ltac:(lia)). destruct (ev e1 s) as [r1 s1]. cbn [fst snd] in *.
-      destruct IHe1 as (I1 & I2 & I3); cbn [fst snd] in I1, I2, I3. destruct G1 as (G11 & G12 & G13 & G14).
-      destruct r1; try (other I3; fail).
-      2:{ repeat split; cbn; auto; try discriminate. intros X; congruence. }
-      specialize (G14 _ eq_refl).
-      destruct (polled hc s1); [apply fits_halt; lia|].
-      rewrite (pop1_some s1) by lia.
-      specialize (IHe2 (setH s1 (pred (sH s1))) ltac:(cbn; lia)).
-      destruct (ev e2 (setH s1 (pred (sH s1)))) as [r2 s2]. destruct IHe2 as (J1 & J2 & J3). cbn in J1, J2, J3.
-      repeat split; cbn; auto. intros X. specialize (J3 X). lia.
-    - (* ListN *)
-      destruct (polled hc s); [apply fits_halt; lia|].
-      assert (E : (sH s + n <=? MaxStack) = true) by (apply Nat.leb_le; lia). rewrite E.
-      pose proof (eval_good cfg Hguard hc cx e (setH s (sH s + n)) ltac:(cbn; lia)) as G1.
-      specialize (IHe (setH s (sH s + n)) ltac:(cbn; lia)).
-      destruct (ev e (setH s (sH s + n))) as [r1 s1]. cbn [fst snd] in *.
-      destruct IHe as (I1 & I2 & I3); cbn [fst snd] in I1, I2, I3. destruct G1 as (G11 & G12 & G13 & G14). rewrite sH_setH in *.
-      destruct r1; try (other I3; fail).
-      2:{ repeat split; cbn; auto; try discriminate. intros X; congruence. }
-      specialize (G14 _ eq_refl).
-      destruct (polled hc s1); [apply fits_halt; lia|].
-      apply fits_push; rewrite ?sH_setH; try lia; cbn; lia.
-    - (* CallE *)
-      destruct (polled hc s); [apply fits_halt; lia|].
-      pose proof (call_fn_fits (Nat.max 1 (hmax e)) (ev e) s ltac:(lia) ltac:(lia)
-                    (eval_good cfg Hguard hc cx e)) as C.
-      assert (IH' : forall t, sH t + Nat.max 1 (hmax e) <= MaxStack -> fits (Nat.max 1 (hmax e)) t (ev e t)).
-      { intros t T. specialize (IHe t ltac:(lia)). destruct IHe as (X1 & X2 & X3). repeat split; auto.
-        intros D. specialize (X3 D). lia. }
-      specialize (C IH').
-      pose proof (call_fn_good hc cx (ev e) s ltac:(lia) (eval_good cfg Hguard hc cx e)) as K. cbn in K.
-      destruct (call_fn hc cx (ev e) s) as [r s1]. cbn [fst snd] in *.
-      destruct C as (C1 & C2 & C3); cbn [fst snd] in C1, C2, C3. destruct K as (K1 & K2 & K3 & K4 & K5).
-      destruct r; try (other C3; fail).
-      2:{ repeat split; cbn; auto; try discriminate. intros X; congruence. }
-      specialize (K4 _ eq_refl). apply fits_push; lia.
-    - destruct (polled hc s); [apply fits_halt; lia|]. apply fits_other; try (intros; discriminate); lia.
-    - destruct (polled hc s); [apply fits_halt; lia|]. apply fits_other; try (intros; discriminate); lia.
-    - destruct (polled hc s); [apply fits_halt; lia|].
-      assert (T : sH (take_gate s) = sH s) by (unfold take_gate; destruct (sGates s); reflexivity).
-      apply fits_push; lia.
-    - pose proof (spin_fits (sGates s) s) as (X1 & X2 & X3). repeat split; auto. intros D. specialize (X3 D). lia.
-  Qed.
-End HMax.
-
